@@ -67,7 +67,7 @@ pub fn run(ctx: &mut Ctx) {
     let a = merge_alphabet();
     let null = Value::Null;
     let mut lists: Vec<Vec<Value>> = Vec::new();
-    for n in 0..=4usize {
+    for n in 0..=(if ctx.tier_thorough { 5usize } else { 4usize }) {
         lists.extend(al::tuples(&a, n));
     }
     for l in &lists {
